@@ -2,7 +2,7 @@
    Only statements closed by [exact <lemma>] and their assumptions.                    *)
 From Coq Require Import ZArith Reals List.
 From FF Require Import Base.Ops Inst.RInst Base.RAlg Base.FMat Model.Numeric Model.Decay Model.Cumulant
-     Model.Tie.C12 Proofs.CMBase Proofs.BasisIndep Proofs.FrameInv Proofs.PauliOnb Proofs.Trapz Proofs.Decay Proofs.BasisChange.
+     Model.Tie.C12 Proofs.CMBase Proofs.BasisIndep Proofs.FrameInv Proofs.PauliOnb Proofs.Trapz Proofs.Decay Proofs.TraceId Proofs.BasisChange.
 From FF Require Model.Consts Inst.Param Corr.Agree Corr.Obs Corr.ObsC08.
 Import ListNotations.
 Local Open Scope R_scope.
